@@ -24,8 +24,8 @@ CHECKS = {
     "C05": dict(cat="exploration", tech="differential plain vs container runs across codec parameter space (levels, block splits, header fields, tar formats) and block sizes",
                 text="stdout(container) must equal stdout(plain) for text, utmp, evtx, journal payloads; lz4 frames are written by hand to choose block splits.",
                 note="python codecs and hand-written lz4 frame writer produce valid streams (validated by lz4_flex through s4 on aligned sizes)", ref="4/C05"),
-    "C06": dict(cat="exploration", tech="offline trace checker (protocol state machine) over hook event logs + stdout equality across schedules + bounded-progress watchdog with deadlock probe",
-                text="Every hooked run's trace is replayed against the channel/print protocol: FileInfo NewMessage* FileSummary per worker, print only when every live source has a pending datum, print = (dt, pathid) minimum, prints == messages received, loop ends normally; stdout identical across schedules.",
+    "C06": dict(cat="exploration", tech="offline trace checker (protocol state machine) over hook event logs + stdout equality across schedules + bounded-progress watchdog with deadlock probe + ThreadSanitizer build",
+                text="Every hooked run's trace is replayed against the channel/print protocol: FileInfo NewMessage* FileSummary per worker, print only when every live source has a pending datum, print = (dt, pathid) minimum, prints == messages received, loop ends normally; stdout identical across schedules. A ThreadSanitizer build (std rebuilt with the sanitizer) runs the same kind of cases incl. --summary and SIGINT: every report block is a violation.",
                 note="hooks log under one mutex so trace order is a total order consistent with real time at the log points; liveness restated as bounded progress", ref="4/C06"),
     "C07": dict(cat="fault_enumeration", tech="fault injection (truncation, corruption, random bytes, mismatching names) under AddressSanitizer and release builds; process-status + sanitizer-report oracle; valgrind/Miri in thorough",
                 text="Faulted inputs of every kind and container (truncation at every offset or offset class, 1/2/4/8-byte overwrites, random/zero/0xFF/printable byte strings, mismatching names), alone and beside 1..3 valid sources, run on the AddressSanitizer build: no signal/abort/panic, exit in {0,1}, no sanitizer report, no hang (watchdog + /proc probe), valid sources' messages all present in order; cases stopped by a known sanitizer report are re-run on the release build.",
